@@ -81,6 +81,72 @@ def header : Str := "{\\rtf1\\ansi\\deff0 {\\fonttbl{\\f0 Times New Roman;}}\n".
 
 def docRtf (doc : List RBlk) : Str := header ++ doc.flatMap RBlk.rtf ++ ['}']
 
+/-! ## row layouts: every separator the format allows between the table tokens
+
+A control word ends at a space (which belongs to it), at the next backslash or brace, or at a line end; CR / LF between
+tokens mean nothing, and any run of tokens may stand in a group.  A `RowLayout` names what the writer puts into every
+slot of a row; `RowLayout.default` is the layout of `rowRtf` followed by a line end (`rowRtfL_default`). -/
+
+structure RowLayout where
+  /-- behind `\trowd` (more row-definition control words) -/
+  defsOpen : Str
+  /-- between two `\cellxN` -/
+  cellxSep : Str
+  /-- behind the last `\cellxN` -/
+  defsClose : Str
+  /-- in front of the paragraphs of a cell (`\pard\intbl` + delimiter); ending in `{` it opens a group that is closed
+      in front of `\cell` -/
+  cellOpen : Str
+  /-- between the paragraphs of a cell -/
+  par : Str
+  /-- in front of the whole cell: empty, or `{` — a group around the cell INCLUDING its `\cell` (`{\pard\intbl a\cell}`,
+      so that a brace follows `\cell`) -/
+  cellWrap : Str
+  /-- `\cell` and what follows it -/
+  cellEnd : Str
+  /-- in front of `\trowd`: empty, or `{` (closed behind `\row`) -/
+  rowOpen : Str
+  /-- between the last cell and `\row`: nothing, `\pard\intbl`, or the row definition once more (`\trowd\cellxN…`, as
+      Word writes it: two `\trowd` in front of one `\row`) -/
+  beforeRow : Str
+  /-- behind `\row` (and the closing brace) -/
+  rowEnd : Str
+
+def RowLayout.default : RowLayout :=
+  { defsOpen := [], cellxSep := [], defsClose := [' '], cellOpen := sCellStart, par := sPar, cellWrap := [], cellEnd := sCellEnd,
+    rowOpen := [], beforeRow := [], rowEnd := ['\n'] }
+
+def closeOf (s : Str) : Str := if s.getLast? == some '{' then ['}'] else []
+
+def cellxsL (sep : Str) : Nat → Nat → Str
+  | _, 0 => []
+  | i, n + 1 => "\\cellx".toList ++ toDec (1500 * (i + 1)) ++ ((if n = 0 then [] else sep) ++ cellxsL sep (i + 1) n)
+
+def cellRtfL (L : RowLayout) (c : RCell) : Str :=
+  L.cellWrap ++ L.cellOpen ++ joinWith L.par (c.map esc) ++ closeOf L.cellOpen ++ L.cellEnd ++ closeOf L.cellWrap
+
+def rowRtfL (L : RowLayout) (r : RRow) : Str :=
+  L.rowOpen ++ "\\trowd".toList ++ L.defsOpen ++ cellxsL L.cellxSep 0 r.length ++ L.defsClose ++ r.flatMap (cellRtfL L) ++ L.beforeRow ++
+    "\\row".toList ++ closeOf L.rowOpen ++ L.rowEnd
+
+abbrev LTable := List (RowLayout × RRow)
+
+def tableRtfL (t : LTable) : Str := t.flatMap (fun lr => rowRtfL lr.1 lr.2)
+
+inductive LBlk where
+  | para (text : Str)
+  | table (t : LTable)
+
+def LBlk.rtf : LBlk → Str
+  | .para s => paraRtf s
+  | .table t => tableRtfL t
+
+def LBlk.tables : LBlk → List Grid
+  | .para _ => []
+  | .table t => [tableSpec (t.map (·.2))]
+
+def docRtfL (doc : List LBlk) : Str := header ++ doc.flatMap LBlk.rtf ++ ['}']
+
 /-! ## the cell texts the theorems speak about -/
 
 /-- a character that the written form carries as itself or as one `\\uN?`: not a backslash or brace (open finding
